@@ -137,7 +137,9 @@ func staleHandleScenario(c *sup.Ctx) {
 			stale = append(stale, again)
 		}
 	}
-	if follow == "recreate-same" {
+	if follow == "recreate-same" && c.Local%4 < 2 {
+		// (in the other half of these scenarios handle B does not ask again, so that its later DropDataStore by name
+		// still starts from the object it cached for the first incarnation)
 		// handle B asks for the collection by name NOW, after it was dropped and created again through handle A: what it
 		// gets must be the collection that exists under that name - A's new documents readable, B's writes visible to A
 		c.Count("datastores_fetched_by_name_after_recreation", 1)
